@@ -8,8 +8,8 @@ import (
 	"testing"
 
 	"github.com/btcsuite/btcutil/base58"
-	"github.com/cosmos/cosmos-sdk/types/bech32"
 	sdk "github.com/cosmos/cosmos-sdk/types"
+	"github.com/cosmos/cosmos-sdk/types/bech32"
 	"github.com/gogo/protobuf/proto"
 	aoltypes "github.com/medibloc/panacea-core/v2/x/aol/types"
 	didtypes "github.com/medibloc/panacea-core/v2/x/did/types"
@@ -202,11 +202,15 @@ func genC16Doc(t *rapid.T, did string) (*didtypes.DIDDocument, string) {
 			doc.Authentications[0] = didtypes.NewVerificationRelationshipDedicated(didtypes.VerificationMethod{Id: did + "#ded", Type: es256k2019, Controller: did, PublicKeyBase58: "0OIl"})
 		}},
 		{"assertion-dangling-reference", func() { doc.AssertionMethods[0] = didtypes.NewVerificationRelationship(did + "#zzz") }},
-		{"key-agreement-dangling", func() { doc.KeyAgreements = []didtypes.VerificationRelationship{didtypes.NewVerificationRelationship(did + "#zzz")} }},
+		{"key-agreement-dangling", func() {
+			doc.KeyAgreements = []didtypes.VerificationRelationship{didtypes.NewVerificationRelationship(did + "#zzz")}
+		}},
 		{"capability-invocation-other-did", func() {
 			doc.CapabilityInvocations = []didtypes.VerificationRelationship{didtypes.NewVerificationRelationship("did:panacea:" + sized(40, "3") + "#key1")}
 		}},
-		{"capability-delegation(valid)", func() { doc.CapabilityDelegations = []didtypes.VerificationRelationship{didtypes.NewVerificationRelationship(vm2.Id)} }},
+		{"capability-delegation(valid)", func() {
+			doc.CapabilityDelegations = []didtypes.VerificationRelationship{didtypes.NewVerificationRelationship(vm2.Id)}
+		}},
 		{"service-no-id", func() { doc.Services[0].Id = "" }},
 		{"service-no-type", func() { doc.Services[0].Type = "" }},
 		{"service-no-endpoint", func() { doc.Services[0].ServiceEndpoint = "" }},
